@@ -211,6 +211,18 @@ theorem be16_drop6 (h : Bytes) (hl : h.length = 12) : ∃ m, be16 (h.drop 6) = s
   match h, hl with
   | [_, _, _, _, _, _, a, b, _, _, _, _], _ => exact ⟨_, rfl⟩
 
+theorem updSegID_ok (rp : RevPath) (inf : InfoF) (peering : Bool)
+    (hh : rp.b.pm.currHF < rp.hops.length) (h12 : ∀ h ∈ rp.hops, h.length = 12) :
+    ∃ infos', updSegID rp inf peering = .ok infos' := by
+  unfold updSegID
+  split
+  · rw [List.getElem?_eq_getElem hh]
+    dsimp only
+    obtain ⟨m, hm⟩ := be16_drop6 rp.hops[rp.b.pm.currHF] (h12 _ (List.getElem_mem hh))
+    rw [hm]
+    exact ⟨_, rfl⟩
+  · exact ⟨_, rfl⟩
+
 theorem externalStep_ok (scope : Scope) (rp : RevPath) (peering : Bool) (hc : Consistent rp.b)
     (hil : rp.infos.length = rp.b.numINF) (hhl : rp.hops.length = rp.b.numHops)
     (h12 : ∀ h ∈ rp.hops, h.length = 12) :
@@ -225,21 +237,161 @@ theorem externalStep_ok (scope : Scope) (rp : RevPath) (peering : Bool) (hc : Co
     rw [List.getElem?_eq_getElem hidx]
     dsimp only
     have hh : rp.b.pm.currHF < rp.hops.length := by have := hc.2.2.2.1; omega
+    obtain ⟨infos', hu⟩ := updSegID_ok rp rp.infos[rp.b.pm.currINF] peering hh h12
+    rw [hu]
+    dsimp only
     split
-    · rw [List.getElem?_eq_getElem hh]
-      dsimp only
-      obtain ⟨m, hm⟩ := be16_drop6 rp.hops[rp.b.pm.currHF] (h12 _ (List.getElem_mem hh))
-      rw [hm]; dsimp only
-      split
-      · exact Or.inl ⟨_, rfl⟩
-      · rename_i b' hinc
-        obtain ⟨hc', hn', hh'⟩ := incPath_consistent rp.b b' hc hinc
-        exact Or.inr ⟨_, rfl, hc', hn', hh'⟩
-    · dsimp only
-      split
-      · exact Or.inl ⟨_, rfl⟩
-      · rename_i b' hinc
-        obtain ⟨hc', hn', hh'⟩ := incPath_consistent rp.b b' hc hinc
-        exact Or.inr ⟨_, rfl, hc', hn', hh'⟩
+    · exact Or.inl ⟨_, rfl⟩
+    · rename_i b' hinc
+      obtain ⟨hc', hn', hh'⟩ := incPath_consistent rp.b b' hc hinc
+      exact Or.inr ⟨_, rfl, hc', hn', hh'⟩
+
+/-! ### unconditional facts: counts are those of the decoded meta line -/
+
+theorem incPath_counts (b b' : Base) (h : incPath b = .ok b') :
+    b'.numINF = b.numINF ∧ b'.numHops = b.numHops := by
+  unfold incPath at h
+  split at h
+  · cases h
+  · split at h
+    · cases h
+    · injection h with h; subst h; exact ⟨rfl, rfl⟩
+
+theorem reverseMeta_counts (b rb : Base) (h : reverseMeta b = some rb) :
+    rb.numINF = b.numINF ∧ rb.numHops = b.numHops := by
+  unfold reverseMeta at h
+  split at h
+  · cases h
+  · injection h with h; subst h; exact ⟨rfl, rfl⟩
+
+theorem reversePath_counts (o : Offender) (rp : RevPath) (peering : Bool)
+    (h : reversePath o = .ok (rp, peering)) : rp.b.numINF ≤ 3 ∧ rp.b.numHops ≤ 64 := by
+  unfold reversePath at h
+  split at h
+  · cases h
+  · rename_i b hb
+    obtain ⟨_, h2, h3, _⟩ := baseDecode_bounds _ b hb
+    split at h
+    · cases h
+    · rename_i rb hr
+      obtain ⟨c1, c2⟩ := reverseMeta_counts b rb hr
+      dsimp only at h
+      split at h
+      · cases h
+      · split at h
+        · cases h
+        · split at h
+          · split at h
+            · cases h
+            · rename_i rb' hi
+              obtain ⟨d1, d2⟩ := incPath_counts rb rb' hi
+              injection h with h; injection h with h1 h2'; subst h1
+              dsimp only; omega
+          · injection h with h; injection h with h1 h2'; subst h1
+            dsimp only; omega
+
+theorem externalStep_counts (scope : Scope) (rp rp' : RevPath) (peering : Bool)
+    (h : externalStep scope rp peering = .ok rp') :
+    rp'.b.numINF = rp.b.numINF ∧ rp'.b.numHops = rp.b.numHops := by
+  unfold externalStep at h
+  split at h
+  · injection h with h; subst h; exact ⟨rfl, rfl⟩
+  · split at h
+    · cases h
+    · split at h
+      · cases h
+      · cases h
+      · split at h
+        · cases h
+        · rename_i b' hi
+          obtain ⟨d1, d2⟩ := incPath_counts rp.b b' hi
+          injection h with h; subst h; exact ⟨d1, d2⟩
+
+/-- an emitted reply went through all four stages -/
+theorem prepare_emit (cfg : Cfg) (scope : Scope) (headroom : Nat) (o : Offender) (rq : Request)
+    (typ code : Nat) (isErr : Bool) (trIf : Nat) (r : Reply)
+    (h : prepareSCMP cfg scope headroom o rq typ code isErr trIf = .emit r) :
+    ∃ rp0 peering rp sz, reversePath o = .ok (rp0, peering) ∧ externalStep scope rp0 peering = .ok rp ∧
+      placement cfg headroom o.raw o.srcType cfg.hostType rp.b.numINF rp.b.numHops typ
+        (needsAuth cfg o typ isErr) isErr = .ok sz ∧
+      finish cfg o rq rp typ code isErr (needsAuth cfg o typ isErr) trIf sz = .emit r := by
+  unfold prepareSCMP at h
+  split at h
+  · cases h
+  · cases h
+  · rename_i rp0 peering hrev
+    split at h
+    · cases h
+    · cases h
+    · rename_i rp hext
+      split at h
+      · cases h
+      · cases h
+      · rename_i sz hpl
+        exact ⟨rp0, peering, rp, sz, hrev, hext, hpl, h⟩
+
+/-- which `prepareSCMP` call produced an emitted reply -/
+theorem processPacket_emit (cfg : Cfg) (scope : Scope) (headroom : Nat) (o : Offender) (rq : Request)
+    (r : Reply) (h : processPacket cfg scope headroom o rq = .emit r) :
+    (∃ t : Nat, (t = 1 ∨ t = 4 ∨ t = 5 ∨ t = 6) ∧ rq.spType = (t : Int) ∧
+        (∀ t' c p, o.l4 = .scmp t' c p → 128 ≤ t') ∧
+        prepareSCMP cfg scope headroom o rq t rq.code true 0 = .emit r) ∨
+    (∃ trIf p, (rq.spType = -1 ∨ rq.spType = -2) ∧ o.l4 = .scmp 130 0 p ∧
+        prepareSCMP cfg scope headroom o rq 131 0 false trIf = .emit r) := by
+  unfold processPacket at h
+  split at h
+  · cases h
+  · have tr : ∀ ifID, traceroute cfg scope headroom o rq ifID = .emit r →
+        ∃ p, o.l4 = .scmp 130 0 p ∧ prepareSCMP cfg scope headroom o rq 131 0 false ifID = .emit r := by
+      intro ifID ht
+      unfold traceroute at ht
+      split at ht
+      · cases ht
+      · cases ht
+      · rename_i t c plen hl4
+        split at ht
+        · cases ht
+        · split at ht
+          · cases ht
+          · rename_i hne _
+            have h130 : t = 130 ∧ c = 0 := by omega
+            obtain ⟨h1, h2⟩ := h130
+            subst h1; subst h2
+            unfold packSCMP at ht
+            rw [hl4] at ht
+            simp only at ht
+            split at ht
+            · omega
+            · exact ⟨plen, hl4, ht⟩
+    split at h
+    · rename_i h1
+      obtain ⟨p, hp, hq⟩ := tr _ h
+      exact Or.inr ⟨_, p, Or.inl h1, hp, hq⟩
+    · split at h
+      · rename_i h2
+        obtain ⟨p, hp, hq⟩ := tr _ h
+        exact Or.inr ⟨_, p, Or.inr h2, hp, hq⟩
+      · rename_i hn1 hn2
+        dsimp only at h
+        split at h
+        · rename_i ht
+          have hnn : 0 ≤ rq.spType := by
+            rcases ht with ht | ht | ht | ht <;> omega
+          refine Or.inl ⟨rq.spType.toNat, by omega, by omega, ?_, ?_⟩
+          · intro t' c p hl4
+            unfold packSCMP at h
+            rw [hl4] at h
+            simp only at h
+            split at h
+            · cases h
+            · omega
+          · unfold packSCMP at h
+            split at h
+            · cases h
+            · split at h
+              · cases h
+              · exact h
+            · exact h
+        · cases h
 
 end Scion.Scmp
